@@ -24,19 +24,19 @@ CHECKS = {
    text='Exhaustive: all 514 unit symbols expand (lexicon) to the dimension set their unit type declares; all 92 quantity types report the set of their unit type in 3 numeric types. Generated: Dimensions objects over the box [-1,1]^7 (all ordered pairs) and random tuples in [-9,9]^7 against a reference printer (Print, JSON, XML, YAML, stream), lexicographic order, hash and container oracle.',
    note='Trusted: the unit lexicon.', ref='5 C06'),
  'C07': dict(engine='symx+units', technique='exhaustive enumeration with exact rational arithmetic (tables) + ' + PBT + ' on generated values through the library\'s own conversions (value-level coherence) + stateful lookup histories against the single-lookup table',
-   text='All 4 systems x 37 unit types: the consistent unit\'s exact SI magnitude (Fractions) equals the product of the system base units (read from the system\'s own abbreviation) raised to the type\'s dimension exponents; the standard system gives the standard units; RelatedUnitSystem for all 514 units equals the stated function of the forward table. Value level: for every unit type x numeric type x system a generated value in the consistent unit converts to/from the standard unit by exactly the product of the base units (4 ulp). Histories: 3..14 interleaved RelatedUnitSystem / ConsistentUnit lookups on one or two unit types (repeats, hit after miss) return what a single lookup in a fresh process returns.',
+   text='All 4 systems x 37 unit types: the consistent unit\'s exact SI magnitude (Fractions) equals the product of the system base units (read from the system\'s own abbreviation) raised to the type\'s dimension exponents; the standard system gives the standard units; RelatedUnitSystem for all 514 units equals the stated function of the forward table. Value level: for every unit type x numeric type x system a generated value in the consistent unit converts to/from the standard unit - through the run-time and the compile-time conversion - by exactly the product of the base units (4 ulp). Histories: 3..14 interleaved RelatedUnitSystem / ConsistentUnit lookups on one or two unit types (repeats, hit after miss) return what a single lookup in a fresh process returns.',
    note='Trusted: the unit lexicon. The table space is finite and is enumerated completely; the value quantifier is sampled.', ref='5 C07 and 0.2'),
  'C08': dict(engine='symx+enums+fuzz', technique='exhaustive enumeration against the lexicon + ' + PBT + ' string mutation + libFuzzer on ParseEnumeration',
    text='Exhaustive: every enumerator of the 39 enum declarations has a unique abbreviation, streams as it, parses back, has both conversion rows, and what the run-time conversion does with 0 and 1 in the unit is the affine map its abbreviation denotes; each of ~2050 accepted spellings denotes (lexicon, exact) the magnitude of the enumerator it parses to. Generated: single-edit mutations of spellings, random strings and (thorough) coverage-guided bytes must parse to nothing unless they are keys.',
    note='Trusted: the unit lexicon (it also knows the SI-brochure / SP 811 units the library lacks, so that an added unit is decidable); ambiguous atoms (lb, C, NM, as ...) accept any alternative of matching dimensions.', ref='5 C08'),
  'C09': dict(engine='math', technique=PBT + ' + exhaustive integer grids against index-notation references',
-   text='71 operations of the four vector/tensor types x 3 numeric types: exhaustive small-integer grids (bit-exact), random integers in [-64,64] (bit-exact), reals over +-40 binades (4 ulp of the sum of |terms|), inverse presence = exact determinant non-zero, A*A^-1 = I within 16 cond eps, symmetric/planar types against their embeddings (incl. presence of the inverse for exactly singular real tensors); in-place scaling by a reference to an own component.',
+   text='71 operations of the four vector/tensor types x 3 numeric types: exhaustive small-integer grids (bit-exact), random integers in [-64,64] (bit-exact), reals over +-40 binades (4 ulp of the sum of |terms|), inverse presence = exact determinant non-zero, A*A^-1 = I within 16 cond eps, symmetric/planar types against their embeddings (incl. presence of the inverse for exactly singular real tensors); in-place scaling by a reference to an own component; every binary operation with both operands the same object.',
    note='Trusted: textbook formulas evaluated in __float128.', ref='5 C09'),
  'C10': dict(engine='rel+dir', technique=PBT + ': validity predicate (unit length, parallel) and metamorphic rescaling',
    text='Every construction path of Direction/PlanarDirection and all 17 vector quantity types: unit length within 4 ulp, components within 4 ulp of v_i/|v|, bit-invariant under power-of-two rescaling, zero -> +0; Magnitude type and value (3 ulp), typed component accessors bit-equal, magnitude x direction rebuilds within 4 ulp.',
    note='Input lengths inside the stated range with the guard band min_normal 2^(p+2).', ref='5 C10'),
  'C11': dict(engine='rel+dir', technique=PBT + ': generator concentrated on (anti)parallel pairs; reference atan2 in __float128',
-   text='The 8 angle kernels (constructor and member form) and all quantity-level angle relations x 3 numeric types: never NaN, in [0, pi], symmetric, independent of lengths (bit-exact for powers of two), within 6 sqrt(eps) of atan2(|a x b|, a.b).',
+   text='The 8 angle kernels (constructor and member form) and all quantity-level angle relations x 3 numeric types: never NaN, in [0, pi], symmetric, independent of lengths (bit-exact for powers of two), within 6 sqrt(eps) of atan2(|a x b|, a.b); direction operands are also taken out of the converting constructor from a float direction.',
    note='Arguments are non-zero and inside the non-overflowing range.', ref='5 C11'),
  'C12': dict(engine='model', technique=PBT + ': reference model (closed-form isotropic elasticity in __float128), round trips with measured conditioning, differential virtual/direct and overload checks, stateful histories on one model object against a fresh model',
    text='20 constructors x 7 accessors x 3 numeric types; materials over +-40 binades of stiffness and nu in [0, 0.5) incl. nu = 0 and nu -> 0.5; identities within 4 ulp, rebuild from every reported pair within 8(1+kappa) ulp, stress formula, strain inverse, ignored arguments, zero results, overload agreement, virtual = direct. Histories of queries, copy-/move-assignments and copy-/move-constructions on one object: every answer bit-identical to a freshly constructed model of the current material.',
